@@ -91,13 +91,15 @@ CACHES = ["cold", "sigma", "full"]
 
 
 @st.composite
-def measure_params(draw, kind, R, D, kappa=100.0):
+def measure_params(draw, kind, R, D, kappa=100.0, extreme=False):
     """Defining inputs of a measure/density of the given kind."""
     diag = kind.startswith("diag")
     # magnitude regimes: mostly O(1) payloads, sometimes large / tiny information vectors, means and log-constants,
     # and an overall scale of the matrix (the properties quantify over arbitrary values)
     vs = draw(st.sampled_from([1.0, 1.0, 1.0, 1.0, 5.0, 0.01]))
-    ms = draw(st.sampled_from([1.0, 1.0, 1.0, 1.0, 30.0, 0.03]))
+    # `extreme`: overall scales of 1e+-8 (a change of units), used where the case stays unit-consistent or consists of
+    # a single object, so that derived matrices remain well conditioned
+    ms = draw(st.sampled_from([1.0, 1.0, 1.0, 1.0, 1.0, 1.0, 30.0, 0.03] + ([1e8, 1e-8] if extreme else [])))
     if kind in ("measure", "diag_measure"):
         return {
             "Lambda": draw(spd(R, D, kappa=kappa, diag=diag)) * ms,
